@@ -17,7 +17,7 @@ EXTRA = [
     Shape(env=dict(x=(-4, -1)), sys=dict(y='bool')),
     Shape(env=dict(x=(2, 2)), sys=dict(y=(0, 2))),
     Shape(env=dict(x='bool'), sys=dict(y='bool'), const=dict(c=(0, 2))),
-    Shape(env=dict(x=(-2, 1)), sys=dict(y=(-3, -2), v='bool')),
+    Shape(env=dict(x=(-2, 1)), sys=dict(y=(-3, -2))),   # 5 state bits: expansion stays small
 ]
 
 
